@@ -16,7 +16,7 @@ patterns and code tuples regenerated from `athlib/codes.py`.  Proved for all inp
   minutes below 60 under hours.
 The speed window is proved for every parsed text of at most two decimals (`C12_timed_speed_window`); idempotence of timed
 results is proved for plain-seconds results of events shorter than 800 m (`C12_plain_seconds_idempotent_partial`) and for
-`m:ss` results of events between 200 m and 800 m other than 400 m (`C12_mss_idempotent_partial`).
+`m:ss` results (no hours field) of every event longer than 200 m (`C12_mss_idempotent_partial`).
 NOT proved (kept as `C12_statement`): idempotence in general — it is false of the code (known findings, see DESIGN.md)
 and decided on the implementation by tools/checks/c12.py.
 -/
@@ -365,22 +365,28 @@ theorem timedDecide_again (disc : Str) (d m c n' sd' k' : Nat) (hd : 0 < d) (hm 
       simp [hle, hc1]
       rw [if_neg (by omega), if_neg (by omega), if_neg (fun h => by have := h.2; omega)]
 
-/-- **An `m:ss` result between 200 m and 800 m is accepted unchanged when validated again** (idempotence, partial):
-    for an event with a distance `200 < d < 800` (none of the colon / stop re-readings applies: the 400 m `63:40` re-reading
-    needs more than 45 minutes, which the speed window excludes), a result
-    with a minutes field has no hours field, seconds below 60, and — printed `"%d:%05.2f"` with trailing zeros and a
-    trailing point stripped — is read back as the same minutes and hundredths and passes the checks again. -/
-theorem C12_mss_idempotent_partial (hA : asciiDigitsOK = true) (disc t : Str) (d h m c : Nat)
-    (hg : getDistance 8 disc = .ok (some d)) (h200 : 200 < d) (h800 : d < 800)
-    (hno : strIn disc ["800", "1500", "3000"] = false) (hm : 0 < m) (hr : timedCore disc t = .time h m c) :
-    h = 0 ∧ c < 6000 ∧ timedCore disc (formatTime h m c) = .time h m c := by
-  have hd : 0 < d := by omega
+/-- an event shorter than 800 m has no result with an hours field (it would be slower than 0.5 m/s) -/
+theorem C12_no_hours_below_800 (disc t : Str) (d h m c : Nat) (hg : getDistance 8 disc = .ok (some d)) (hd : 0 < d)
+    (h800 : d < 800) (hr : timedCore disc t = .time h m c) : h = 0 := by
   obtain ⟨h0, m0, sn0, dc0, hdec⟩ := timedCore_decided disc t d hg h m c hr
-  obtain ⟨_, h11, h10, hslow⟩ := C12_timed_speed_window disc d hd h0 m0 sn0 dc0 h m c hdec
-  have hc : c < 6000 := (C12_timed_fields_below_60 disc (some d) h0 m0 sn0 (10 ^ dc0) dc0 h m c hdec).1 (Or.inr hm)
-  have hh : h = 0 := by omega
-  subst hh
-  refine ⟨rfl, hc, ?_⟩
+  obtain ⟨_, _, _, hslow⟩ := C12_timed_speed_window disc d hd h0 m0 sn0 dc0 h m c hdec
+  omega
+
+/-- **An `m:ss` result of an event longer than 200 m is accepted unchanged when validated again** (idempotence,
+    partial): for an event with a distance above 200 m (up to 200 m a colon without a point is re-read as a point: the
+    known finding), a result with a minutes field and no hours field has seconds below 60, and — printed `"%d:%05.2f"`
+    with trailing zeros and a trailing point stripped — is read back as the same minutes and hundredths and passes the
+    checks again.  None of the re-readings applies: the stop-for-colon one needs a text without a colon, the `a:b:c`
+    one of 800 / 1500 / 3000 needs three fields, the 400 m `63:40` one more than 45 minutes (excluded by the speed
+    window). -/
+theorem C12_mss_idempotent_partial (hA : asciiDigitsOK = true) (disc t : Str) (d m c : Nat)
+    (hg : getDistance 8 disc = .ok (some d)) (h200 : 200 < d) (hm : 0 < m) (hr : timedCore disc t = .time 0 m c) :
+    c < 6000 ∧ timedCore disc (formatTime 0 m c) = .time 0 m c := by
+  have hd : 0 < d := by omega
+  obtain ⟨h0, m0, sn0, dc0, hdec⟩ := timedCore_decided disc t d hg 0 m c hr
+  obtain ⟨_, h11, h10, hslow⟩ := C12_timed_speed_window disc d hd h0 m0 sn0 dc0 0 m c hdec
+  have hc : c < 6000 := (C12_timed_fields_below_60 disc (some d) h0 m0 sn0 (10 ^ dc0) dc0 0 m c hdec).1 (Or.inr hm)
+  refine ⟨hc, ?_⟩
   simp only [Nat.mul_zero, Nat.zero_add] at h11 h10 hslow
   -- the printed text
   have ha : c / 1000 < 10 := by omega
@@ -407,35 +413,36 @@ theorem C12_mss_idempotent_partial (hA : asciiDigitsOK = true) (disc t : Str) (d
     by_cases hE : digitChar0 (c / 10 % 10) = '0'
     · have e0 : c / 10 % 10 = 0 := (digitChar0_eq_zero _ he).1 hE
       rw [if_neg (by simpa using hE), List.append_assoc, List.singleton_append]
-      rw [timedCore_mss hA disc m hm _ d hg h200 h800 hno
+      rw [timedCore_mss hA disc m hm _ d hg h200
         (by intro ch hch; simp only [List.mem_cons, List.mem_nil_iff, or_false] at hch; rcases hch with rfl | rfl <;> assumption)
         _ (floatOf_ss hA _ _ ha hb)]
       exact timedDecide_again disc d m c _ 1 0 hd hm hc (Or.inl ⟨rfl, rfl⟩) (by omega) h11 h10 hslow
     · rw [if_pos (by simpa using hE), List.append_assoc, List.singleton_append]
-      rw [timedCore_mss hA disc m hm _ d hg h200 h800 hno
+      rw [timedCore_mss hA disc m hm _ d hg h200
         (by intro ch hch; simp only [List.mem_cons, List.mem_nil_iff, or_false] at hch; rcases hch with rfl | rfl | rfl | rfl <;> assumption)
         _ (floatOf_ss_c hA _ _ _ ha hb he)]
       exact timedDecide_again disc d m c _ 10 1 hd hm hc (Or.inr (Or.inl ⟨rfl, rfl⟩)) (by omega) h11 h10 hslow
   · rw [if_pos (by simpa using hF), List.append_assoc, List.singleton_append]
-    rw [timedCore_mss hA disc m hm _ d hg h200 h800 hno
+    rw [timedCore_mss hA disc m hm _ d hg h200
       (by intro ch hch; simp only [List.mem_cons, List.mem_nil_iff, or_false] at hch; rcases hch with rfl | rfl | rfl | rfl | rfl <;> assumption)
       _ (floatOf_ss_cc hA _ _ _ _ ha hb he hf)]
     exact timedDecide_again disc d m c _ 100 2 hd hm hc (Or.inr (Or.inr ⟨rfl, rfl⟩)) (by omega) h11 h10 hslow
 
 /-- the same on the level of the validator's timed branch -/
-theorem C12_mss_returned_unchanged (hA : asciiDigitsOK = true) (disc t : Str) (d h m c : Nat)
-    (hg : getDistance 8 disc = .ok (some d)) (h200 : 200 < d) (h800 : d < 800)
-    (hno : strIn disc ["800", "1500", "3000"] = false) (hm : 0 < m) (hr : timedCore disc t = .time h m c) :
-    checkTimed disc t = .ok (formatTime h m c) ∧ checkTimed disc (formatTime h m c) = .ok (formatTime h m c) := by
-  obtain ⟨_, _, h2⟩ := C12_mss_idempotent_partial hA disc t d h m c hg h200 h800 hno hm hr
+theorem C12_mss_returned_unchanged (hA : asciiDigitsOK = true) (disc t : Str) (d m c : Nat)
+    (hg : getDistance 8 disc = .ok (some d)) (h200 : 200 < d) (hm : 0 < m) (hr : timedCore disc t = .time 0 m c) :
+    checkTimed disc t = .ok (formatTime 0 m c) ∧ checkTimed disc (formatTime 0 m c) = .ok (formatTime 0 m c) := by
+  obtain ⟨_, h2⟩ := C12_mss_idempotent_partial hA disc t d m c hg h200 hm hr
   unfold checkTimed
   rw [hr, h2]
   exact ⟨rfl, rfl⟩
 
 /-- non-vacuity: 600 m in 1:35.5, returned as `1:35.5` -/
 example : (match getDistance 8 "600".toList with | .ok (some 600) => true | _ => false) = true ∧
-    strIn "600".toList ["800", "1500", "3000"] = false ∧
     timedCore "600".toList "1:35.50".toList = .time 0 1 3550 ∧ formatTime 0 1 3550 = "1:35.5".toList := by decide +kernel
+/-- and 1500 m in 3:45.60 -/
+example : (match getDistance 8 "1500".toList with | .ok (some 1500) => true | _ => false) = true ∧
+    timedCore "1500".toList "3:45.60".toList = .time 0 3 4560 ∧ formatTime 0 3 4560 = "3:45.6".toList := by decide +kernel
 
 /-- Full statement of the remaining clauses (NOT proved here). -/
 def C12_statement : Prop :=
